@@ -581,6 +581,8 @@ class Module:
                     props.append('C05')      # a conversion that clobbers / mis-owns a field does not keep or add the right values
                 if kind in ('clone', 'clone_from') and 'C16' not in props:
                     props.append('C16')
+                if kind in ('visit_seq', 'deserialize', 'serialize') and 'C15' not in props:
+                    props.append('C15')      # e.g. a decoded value leaked when a later element is rejected
                 self.add(props, rule, b.key, msg, key='%s|%s' % (b.key.replace(self.prefix, ''), re.sub(r'\[.*$', '', msg)[:120]))
             res.append((okind, st, ret))
         return it, res
